@@ -54,6 +54,12 @@ def main():
         if meta.get('status') == 'retired':
             print('{}: retired (no longer demonstrated on the repaired tree) -> checker {}'.format(sid, 'reports ' + str(sorted(caught)) if caught else 'silent'))
             continue
+        if meta.get('status') == 'withheld':
+            e2 = own in {p for p, v in res.items() if v['exit'] == 2}
+            print('{}: withheld by the shape gate (change of 11+ statements) -> own check {}'.format(sid, 'INCONCLUSIVE, exit 2 (as recorded)' if e2 and own not in caught else ('reports it' if own in caught else 'SILENT (miss!)')))
+            if own not in caught and not e2:
+                missed.append(sid)
+            continue
         if meta.get('status') == 'neutralised':
             print('{}: neutralised by fix {} (demo passes on the repaired tree) -> checker {}'.format(sid, meta['neutralised_by'], 'SILENT (correct)' if not caught else 'ALARMS (false alarm!) ' + str(sorted(caught))))
             continue
